@@ -1,6 +1,7 @@
-(** The statement skeletons of the run-time wrappers against which the hand-written model
-    (Model/Checker.v, Model/Run.v) was written, pinned: a change of the wrappers in /repo breaks a
-    lemma here; that is not by itself a violation - it makes the checks search for a failing input.
+(** The source text against which the hand-written models were written, pinned (SkelPin*: the
+    statement skeletons of the run-time wrappers; SrcPin*: every statement of the package, normalised by
+    unparsing): a change in /repo breaks a lemma here; that is not by itself a violation - it makes the
+    checks search for a failing input.
     (regenerate with harness/repin.py after reviewing the model against the new code) *)
 From ICV Require Import Base Generated.
 Open Scope string_scope.
